@@ -41,6 +41,23 @@ def _variants(prop, renamed_mutants=False):
                 out.append(("mutant", m))
                 if renamed_mutants:
                     out.append(("mutant", dict(m, name=m["name"] + " [on the alpha-renamed package]", rename=True)))
+    # the confirmed behaviour-preserving refactorings of independent sub-agents (DESIGN section 11) are permanent twins: of their own
+    # property and of every property whose check reacted to them at first contact
+    rd = os.path.join(here, "refactors")
+    if os.path.isdir(rd):
+        import json as _json
+        for rid in sorted(os.listdir(rd)):
+            pth = os.path.join(rd, rid, "patch.diff")
+            if not os.path.exists(pth):
+                continue
+            try:
+                meta = _json.load(open(os.path.join(rd, rid, "meta.json")))
+            except (OSError, ValueError):
+                meta = {}
+            fc = meta.get("checks_first_contact", {})
+            touched = {rid.split("-")[0]} | set(fc.get("false_violation", [])) | set(fc.get("undecided", []))
+            if prop in touched:
+                out.append(("twin", dict(name=f"refactoring {rid}", patch=pth, known_limit=meta.get("known_limit", {}).get(prop))))
     # every driver must give the clean verdict on the alpha-renamed package, and still see every mutant there
     out.append(("twin", dict(name="alpha-renamed locals (whole package)", rename=True, edits=[])))
     for kind in ("flip", "invert", "kwargs", "aug", "noise", "annot"):
@@ -158,6 +175,9 @@ def run_one(task):
     if kind == "twin":
         if code == 0:
             return (prop, kind, v["name"], "ok", "silent")
+        if code == 2 and v.get("known_limit"):
+            # recorded limit of the analysis (DESIGN section 11): the check answers "cannot decide" (exit 2), never VIOLATION
+            return (prop, kind, v["name"], "ok", "undecided (known limit: %s)" % v["known_limit"])
         return (prop, kind, v["name"], "FALSE-ALARM", "; ".join(res.get("lines", [])[-6:]))
     # mutant
     if code == 1:
